@@ -11,7 +11,9 @@ Space (enumerated completely, simplest first): a parametric skool/ref/option gra
     main.skool   E0 (RST target at 7/8), E1 (target entry, every type of bcgstuw; first
                  instruction, mid instruction, '*' entry point, a byte inside an
                  instruction), E2 (source entry: CALL/JP/JR/DJNZ/LD/DEFW/JP cc/RST
-                 operands all aimed at one target kind), E3 (an 'i' entry), @remote,
+                 operands all aimed at one target kind), E3 (an 'i' entry), @remote (one
+                 directive or two naming the same remote routine with disjoint, overlapping or
+                 identical entry point lists; at the top of the file, in two routines, in one),
                  @label, #R in every comment position (title, description, register
                  description, delimited register name, start comment, instruction
                  comment, multi-line instruction comment, mid-block comment, end
@@ -29,7 +31,7 @@ Space (enumerated completely, simplest first): a parametric skool/ref/option gra
                  JavaScript
     options      -1 -a -C -D/-H -l/-u -o -O -T -j and every subset of -w dimoP
 
-explored as core.deviations from the default configuration (quick: d <= 2 over all 47
+explored as core.deviations from the default configuration (quick: d <= 2 over all 49
 dimensions; thorough: additionally d <= 3 over the 21 link-forming core dimensions).
 The -w letters form one more dimension whose 31 non-default values are all run (quick:
 on the default configuration; thorough: on every configuration with <= 1 deviation),
@@ -67,7 +69,7 @@ NEEDS_C = False
 DEFAULT = dict(
     # skool file shape
     tgt='entry', rtgt='e2', rform='plain', ttype='c', stype='c', e3='i', rst='entry', label='none', other='one', otype='w',
-    hexskool=0,
+    remotes='one', remoteplace='top', hexskool=0,
     # ref file
     anchor='dec', linkops='default', lio='0', single=0, codepath='asm', codefiles='default', opaths='default',
     indexpath='default', mappath='default', asmpage='default', respath='default', assetpath='default', pagepath='default',
@@ -88,6 +90,8 @@ ALTS = dict(
     label=['e1', 'e2', 'both'],
     other=['two'],
     otype=['b', 'c', 'g', 's', 't', 'u', 'i'],
+    remotes=['disjoint', 'disjoint_rev', 'overlap', 'identical'],
+    remoteplace=['split', 'same'],
     hexskool=[1],
     anchor=['hex', 'HEX', 'if'],
     linkops=['all', 'ld'],
@@ -305,6 +309,31 @@ def _paths(cfg):
     return p, over
 
 
+# The @remote directives of main.skool that declare the routine at OC of the secondary disassembly 'other'
+# (dimension 'remotes'): the lists of entry points after the entry address, one list per directive.
+# A = OC+3 (marked '*' in other.skool), B = OC+6 (an unmarked instruction of the same routine).
+REMOTE_LISTS = {
+    'one': [(3,)],                      # one directive: A
+    'disjoint': [(3,), (6,)],           # A only in the first directive, B only in the second
+    'disjoint_rev': [(6,), (3,)],       # B only in the first directive, A only in the second
+    'overlap': [(3,), (3, 6)],          # A in both, B only in the second
+    'identical': [(3,), (3,)],          # A in both
+}
+
+
+def remote_class(cfg, offset):
+    """How the address OC+offset is declared by the @remote directives of main.skool."""
+    lists = REMOTE_LISTS[cfg['remotes']]
+    if offset == 0:
+        return 'entry' if len(lists) == 1 else 'entry_repeated'
+    where = [offset in lst for lst in lists]
+    if not any(where):
+        return 'undeclared'
+    if len(lists) == 1:
+        return 'single'
+    return 'both' if all(where) else ('first_only' if where[0] else 'second_only')
+
+
 def single_page(cfg):
     return bool(cfg['one'] or cfg['single'])
 
@@ -430,7 +459,7 @@ class Case:
         return '#LINK(MemoryMap#32768)(map) #LINK(MemoryMap)() {} {} #LINK(Box)(box) #LINK(P1)(p1) #LINK(GameIndex)(home) ' \
                '#LINK(other-Index)(oc) #LINK(other-Index#{})(oc entry)'.format(self.B('b1'), self.B('title__two_'), OC)
 
-    def _entry_lines(self, entry, title, desc, labels, rich, R):
+    def _entry_lines(self, entry, title, desc, labels, rich, R, directives=()):
         addr, ins = entry
         L = ['; {}'.format(title), ';', '; {} #HTML(<span id="n{}"></span>)'.format(desc, addr)]
         if rich:
@@ -439,6 +468,8 @@ class Case:
             L += [';', '; A Register description {}'.format(R), '; /{}/ Delimited register name'.format(self.R(named_ok=False)),
                   ';', '; Start comment {}'.format(R)]
         for i, (a, ctl, operation) in enumerate(ins):
+            if i == 0:
+                L += directives        # ASM directives placed in this routine (above its first instruction)
             if a in labels:
                 L.append('@label=' + labels[a])
             comment = ''
@@ -464,7 +495,12 @@ class Case:
             labels.update({E1: 'START', E1 + 1: 'MID', E1 + 2: 'EP'})
         if cfg['label'] in ('e2', 'both'):
             labels.update({E2: 'SRC', E2 + 10: 'SRCMID'})
-        L = ['@remote=other:{},{}'.format(self.op(OC), self.op(OC + 3))]
+        # dimensions 'remotes' (how many directives declare the remote routine OC and which entry points each lists)
+        # and 'remoteplace': 'top' = all at the start of the file; 'split' = the i-th directive in the i-th routine
+        # (E1, E2); 'same' = all in the routine E2
+        remotes = ['@remote=other:' + ','.join(self.op(OC + o) for o in (0,) + lst) for lst in REMOTE_LISTS[cfg['remotes']]]
+        place = {'top': [remotes, [], []], 'split': [[], remotes[:1], remotes[1:]], 'same': [[], [], remotes]}[cfg['remoteplace']]
+        L = list(place[0])
         if cfg['other'] == 'two':
             L.append('@remote=aux2:{}'.format(self.op(AUX)))
         if self.e0:
@@ -473,8 +509,8 @@ class Case:
         if cfg['resources']:
             audio += ' #AUDIO0(pre.mp3) #AUDIO0(alt.wav)(100,200)'
         desc = 'Description {R}. #UDG{u} {audio} {links}'.format(R=R, u=UDG_ADDR, audio=audio, links=self.LINKS)
-        L += self._entry_lines(self.e1, 'Target entry {}'.format(R), desc, labels, True, R)
-        L += self._entry_lines(self.e2, 'Source entry', 'E2.', labels, False, R)
+        L += self._entry_lines(self.e1, 'Target entry {}'.format(R), desc, labels, True, R, place[1])
+        L += self._entry_lines(self.e2, 'Source entry', 'E2.', labels, False, R, place[2])
         if cfg['other'] == 'two':
             # a reference into the second secondary disassembly
             L.insert(len(L) - 2, ' {} CALL {}'.format(self.A(E2 + 26), self.op(AUX)))
@@ -971,6 +1007,14 @@ def check_tree(case, tree, w=W_FULL, full=None, counters=None):
 
     if cfg['otype'] == 'i':
         count('other_entry_ignored')
+    # vacuity guards of the dimensions 'remotes' x 'remoteplace' x targets, taken from the configuration
+    mp = 'multi' if mode == 'multi_page' else 'single'
+    if cfg['rtgt'] in ('remote', 'remote_ep'):
+        count('R>remote:{}:{}'.format(remote_class(cfg, 3 if cfg['rtgt'] == 'remote_ep' else 0), mp))
+    if cfg['tgt'] in ('remote', 'remote_ep', 'remote_undeclared'):
+        count('operand>remote:{}'.format(remote_class(cfg, {'remote': 0, 'remote_ep': 3, 'remote_undeclared': 6}[cfg['tgt']])))
+    if cfg['remoteplace'] != 'top':
+        count('remote_in_routine:{}:{}'.format(cfg['remoteplace'], len(REMOTE_LISTS[cfg['remotes']])))
     if tree.rc:
         bad('tool_failed', str(tree.exc).split(':')[0], 'skool2html failed on documented input: {} {}'.format(tree.exc, tree.err.strip()[-300:]),
             box=cfg['box'], boxlink=cfg['boxlink'], error=str(tree.exc)[:120])
@@ -1199,6 +1243,12 @@ REQUIRED = [
     'oindex_section_row:u', 'oindex_section_row:w',
     'oindex_builtin_row:b', 'oindex_builtin_row:c', 'oindex_builtin_row:g', 'oindex_builtin_row:s', 'oindex_builtin_row:t',
     'oindex_builtin_row:u', 'oindex_builtin_row:w', 'other_entry_ignored',
+    # #R / operands aimed at the remote routine, by the way the @remote directives of main.skool declare the target
+    'R>remote:entry:multi', 'R>remote:entry_repeated:multi', 'R>remote:single:multi', 'R>remote:first_only:multi',
+    'R>remote:second_only:multi', 'R>remote:both:multi', 'R>remote:single:single',
+    'operand>remote:entry', 'operand>remote:entry_repeated', 'operand>remote:single', 'operand>remote:first_only',
+    'operand>remote:second_only', 'operand>remote:both', 'operand>remote:undeclared',
+    'remote_in_routine:split:1', 'remote_in_routine:split:2', 'remote_in_routine:same:1', 'remote_in_routine:same:2',
 ]
 
 
@@ -1217,7 +1267,10 @@ def run(tier, seed):
              'path) occurs with the first a string prefix of the second) and the same below a common parent directory (nested, '
              'nested_rev); the secondary disassembly has a routine with an entry point and a second entry of every type (otype: '
              'w,b,c,g,s,t,u,i) and its index page is either a user-defined [MemoryMap:other-Index] section (EntryTypes=bcgstuw, Intro) '
-             'or the built-in memory map (omap); non-trivial = any deviation from the default; '
+             'or the built-in memory map (omap); the routine of the secondary disassembly that main.skool refers to is declared by one '
+             '@remote directive or by two that name it with entry point lists A|B, B|A, A|A,B or A|A (remotes; A is the #R/operand target '
+             'remote_ep, B the operand target remote_undeclared, so each is listed by the first only, the second only, both or none), placed '
+             'at the top of the file, one in each of two routines or both in one routine (remoteplace); non-trivial = any deviation from the default; '
              'states = distinct (file set, per-page reference set) outcomes'.format(d_all, len(DEFAULT), nalt, core_txt, d_w, len(SLOTS),
                                                                                   ','.join(s for s, _ in SLOTS)),
         exhaustive=True,
